@@ -11,6 +11,7 @@ from __future__ import annotations
 import ast
 import hashlib
 import os
+import re
 import shutil
 import subprocess
 import sys
@@ -139,12 +140,23 @@ def parse_junit(path):
     return out
 
 
+_DEADLINE = None  # set by the running stand-in (stand-ins run one at a time)
+
+
+def set_deadline(d):
+    global _DEADLINE
+    _DEADLINE = d
+    return d
+
+
 class Res(dict):
     __getattr__ = dict.__getitem__
 
 
 def run_session(proj, args=(), env=None, stdin=b"", tty=None, timeout=120, junit=True, base_args=BASE_ARGS):
     """one real pytest session in `proj`; returns Res(rc, out, err, outcomes, before, after, cmd, env_extra)"""
+    if _DEADLINE is not None and _DEADLINE.expired():
+        raise Skipped()
     proj = Path(proj)
     before = read_tree(proj)
     outdir = Path(tempfile.mkdtemp(prefix="bsess-out-"))
@@ -336,21 +348,54 @@ def pmap(fn, items, workers=8):
 
 
 class Failures:
-    """collects failures with the caps required by the registration API"""
+    """collects failures with the caps required by the registration API (thread safe)"""
 
     def __init__(self):
+        import threading
+
         self.items = []
         self.counts = {}
         self.dropped = {}
+        self._lock = threading.Lock()
 
     def add(self, finding, input, detail, replay_code):
-        n = self.counts.get(finding, 0)
-        cap = 20 if finding is None else 5
-        if n >= cap:
-            self.dropped[finding] = self.dropped.get(finding, 0) + 1
-            return
-        self.counts[finding] = n + 1
-        self.items.append(dict(finding=finding, input=input, detail=str(detail)[-6000:], replay_code=replay_code))
+        with self._lock:
+            n = self.counts.get(finding, 0)
+            cap = 20 if finding is None else 5
+            if n >= cap:
+                self.dropped[finding] = self.dropped.get(finding, 0) + 1
+                return
+            self.counts[finding] = n + 1
+            m = re.match(r"((?:C\d\d/?)+):", str(detail))
+            props = m.group(1).split("/") if m else None  # None: not attributable (harness fault) -> shown for every property
+            self.items.append(dict(finding=finding, props=props, input=input, detail=str(detail)[-6000:],
+                                   replay_code=replay_code))
+
+
+class Deadline:
+    """wall-clock budget of a stand-in run: jobs that have not started when it expires are skipped (and counted)"""
+
+    BUDGET = {"quick": 38.0, "thorough": 13.5 * 60}
+
+    def __init__(self, tier):
+        import threading
+        import time
+
+        self._time = time.time
+        self.end = time.time() + self.BUDGET.get(tier, 38.0)
+        self.skipped = 0
+        self._lock = threading.Lock()
+
+    def expired(self):
+        if self._time() > self.end:
+            with self._lock:
+                self.skipped += 1
+            return True
+        return False
+
+
+class Skipped(Exception):
+    """raised inside a job that was not run because the budget was used up"""
 
 
 def tail(text, n=40):
@@ -448,3 +493,13 @@ def step_src(args=(), env=None, stdin=b"", var="r"):
     if stdin:
         extra += f", stdin={stdin!r}"
     return f"{var} = session(PROJ, {list(args)!r}{extra})"
+
+
+def result_for(pid, res):
+    """restrict the result of a stand-in run to the failures attributed to property `pid` (failure key 'props')"""
+    if pid is None:
+        return res
+    res = dict(res)
+    res["failures"] = [f for f in res.get("failures", []) if not f.get("props") or pid in f["props"]]
+    res["property"] = pid
+    return res
